@@ -16,7 +16,8 @@ VARIABLE c
 
 \* letters in both cases, '_' and '-', the two bytes of e-acute / E-acute, and the bytes right next to the letter ranges
 \* ('@' '[' '`' '{'): an off-by-one in a hand-written case fold shows only there
-Alpha == {97, 65, 98, 95, 45, 195, 169, 137, 64, 91, 96, 123, 122, 90}
+\* (depth 3 keeps to the first eight: the laws are quadratic in the number of strings and cubic with the transitivity clauses)
+Alpha == IF Depth >= 3 THEN {97, 65, 98, 95, 45, 195, 169, 137} ELSE {97, 65, 98, 95, 45, 195, 169, 137, 64, 91, 96, 123, 122, 90}
 RECURSIVE Strs(_)
 Strs(n) == IF n = 0 THEN { <<>> } ELSE LET s == Strs(n - 1) IN s \cup { Append(x, a) : x \in { y \in s : Len(y) = n - 1 }, a \in Alpha }
 Small == Strs(Depth)
